@@ -399,10 +399,31 @@ def c10_entry_points(acc, rng):
     import nasim
     modes = dict(fully_obs=rng.random() < 0.5, flat_actions=rng.random() < 0.5,
                  flat_obs=rng.random() < 0.5)
-    if rng.random() < 0.5:
+    x = rng.random()
+    if x < 0.35:
         name = rng.choice(corpus.SHIPPED + corpus.GENERATED[:5])
         env = nasim.make_benchmark(name, seed=rng.randrange(100), **modes)
         what = f"make_benchmark({name})"
+    elif x < 0.65:
+        # nasim.load on a scenario file (a shipped one or a synthetic one
+        # written out for the occasion)
+        import os
+        import tempfile
+        if rng.random() < 0.5:
+            name = rng.choice(corpus.SHIPPED)
+            env = nasim.load(corpus.shipped_path(name), **modes)
+            what = f"load({name}.yaml)"
+        else:
+            spx = synth.synth(rng, "quick", route="yaml", max_hosts=8)
+            fd, path = tempfile.mkstemp(suffix=".yaml", prefix="nv-")
+            with os.fdopen(fd, "w") as f:
+                f.write(spx.to_yaml_text())
+            try:
+                env = nasim.load(path, **modes)
+            finally:
+                os.unlink(path)
+            what = "load(synthetic yaml)"
+        acc.count("entry_point_environments_from_load")
     else:
         p = dict(num_hosts=rng.choice([3, 5, 8, 12]),
                  num_services=rng.randint(1, 5), num_os=rng.randint(1, 3),
@@ -416,7 +437,19 @@ def c10_entry_points(acc, rng):
     want = (dims[0] * dims[1],) if modes["flat_obs"] else tuple(dims)
     o, info = env.reset()
     bad = []
+    # the modes that were asked for are the modes one gets
+    from gymnasium import spaces as _sp
+    want_space = _sp.Discrete if modes["flat_actions"] else _sp.MultiDiscrete
+    if not isinstance(env.action_space, want_space) or \
+            bool(env.fully_obs) != modes["fully_obs"] or \
+            env.observation_space.shape != want:
+        bad.append(f"requested {modes}, got action space "
+                   f"{type(env.action_space).__name__}, fully_obs="
+                   f"{env.fully_obs}, observation space shape "
+                   f"{env.observation_space.shape}")
     for _ in range(40):
+        if bad:
+            break
         if o.dtype != np.float32 or o.shape != want or \
                 not env.observation_space.contains(o):
             bad.append(f"dtype={o.dtype} shape={o.shape} in_space="
